@@ -374,16 +374,14 @@ Definition S_bloc (cols : list column) (mask : list (list bool)) : list (Z * Z *
            (indexed (combine cols mask)).
 
 (* =====================================================================================================
-   10. TypeBlocks.dropna_to_keep_locations(axis=1) (type_blocks.py:3029-3057): the isna blocks are all Boolean,
-       consolidate_blocks yields ONE array -- but a lone 1-D block is yielded by reference and stays 1-D, and
-       then `to_drop = unified` is a mask over the ROWS that is returned as the column key
+   10. TypeBlocks.dropna_to_keep_locations(axis=1) (type_blocks.py:3040-3070): the isna blocks are all Boolean,
+       consolidate_blocks yields ONE array; a lone 1-D block (yielded by reference, still 1-D) is reshaped to one
+       column (since fix 35bd018); the condition is applied down every column
    ===================================================================================================== *)
 Definition M_dropna_keep_columns (na : A -> bool) (cond : list bool -> bool) (t : tb) : list bool :=
   match t with
-  | [b] => if b_1d b
-           then match b_cols b with [c] => map (fun x => negb (na x)) c | _ => [] end
-           else map (fun c => negb (cond (map na c))) (b_cols b)
-  | _ => map (fun c => negb (cond (map na (snd c)))) (flatten t)
+  | [b] => map (fun c => negb (cond (map na c))) (b_cols b)            (* the block itself, 1-D reshaped to (n, 1) *)
+  | _ => map (fun c => negb (cond (map na c))) (flat_map b_cols t)      (* _concatenate_blocks of the isna blocks *)
   end.
 Definition S_dropna_keep_columns (na : A -> bool) (cond : list bool -> bool) (cols : list column) : list bool :=
   map (fun c => negb (cond (map na (snd c)))) cols.
